@@ -50,6 +50,7 @@ type Thread struct {
 	lastRun  int
 	prio     int
 
+	Blocks     int // number of times the scheduler found the thread durably blocked in an operation
 	PanicVal   interface{}
 	PanicStack string
 	BlockedAt  int32 // set at the end of the run if still blocked
@@ -318,6 +319,7 @@ func (s *Sim) observe() {
 	for _, th := range s.threads {
 		if th.state.Load() == stRunning && !th.desched.Load() {
 			th.desched.Store(true)
+			th.Blocks++
 			s.mix(0xb10c, uint64(th.ID), uint64(uint32(th.opSite)))
 			if s.cfg.Trace {
 				s.trace = append(s.trace, fmt.Sprintf("  T%d(%s) blocked at %s", th.ID, th.Name, SiteName(th.opSite)))
